@@ -53,17 +53,32 @@ MW = "server.middleware"
 FP = "sha256:" + "ab" * 32
 
 
+def _rule_lookup(chk: Check):
+    """(process_request FunctionInfo, variable holding the matched rule, the
+    lookup call, the matcher FunctionInfo) - discovered from the data flow: the
+    variable whose `.require_cert` is read, and the self-method call bound to it."""
+    from ..cfg import Resolver
+
+    fi = chk.proj.func(f"{MW}:CertificateAuth.process_request")
+    var = None
+    for n in walk(fi.node):
+        if isinstance(n, ast.Attribute) and n.attr in ("require_cert", "allowed_fingerprints") and isinstance(n.value, ast.Name):
+            var = n.value.id
+    call = None
+    if var is not None:
+        for st in walk(fi.node):
+            if isinstance(st, ast.Assign) and dotted(st.targets[0]) == var and isinstance(st.value, ast.Call):
+                call = st.value
+    matcher = Resolver(chk.proj).resolve(fi, call) if call is not None else None
+    return fi, var, call, matcher
+
+
 def rule_a1(chk: Check) -> None:
     chk.rule("A1", "decision table of CertificateAuth.process_request equals: no cert & (required | list) -> 60; cert & list & fp not in list -> 61; else admit (empty list admits nobody)")
-    fi = chk.proj.func(f"{MW}:CertificateAuth.process_request")
+    fi, rule_var, lookup_call, _matcher = _rule_lookup(chk)
     g = build_cfg(chk.proj, fi)
-    # the variable holding the matched rule
-    rule_var = None
-    for st in walk(fi.node):
-        if isinstance(st, ast.Assign) and isinstance(st.value, ast.Call) and "rule" in norm(st.value.func).lower():
-            rule_var = dotted(st.targets[0])
-    if rule_var is None:
-        chk.floor("A1", "matched-rule variable", 0, 1)
+    if rule_var is None or lookup_call is None:
+        chk.floor("A1", "matched-rule variable / lookup call", 0, 1)
     fpp = [p for p in fi.params if "fingerprint" in p or "cert" in p]
     if not fpp:
         chk.floor("A1", "fingerprint parameter", 0, 1)
@@ -83,7 +98,7 @@ def rule_a1(chk: Check) -> None:
                     want = (True, None)
                 interp = Interp(chk.proj, fi)
                 interp.oracle = {f"{rule_var}.require_cert": BoolV(require), f"{rule_var}.allowed_fingerprints": lst, f"{rule_var}.prefix": lit("/")}
-                interp.call_oracle = lambda c, _rv=rule_var: ObjV("rule") if "rule" in norm(c.func).lower() and "find" in norm(c.func).lower() else None
+                interp.call_oracle = lambda c, _lc=lookup_call: ObjV("rule") if c is _lc else None
                 init = {fpp: lit(FP) if has_fp else NoneV()}
                 res = interp.run_paths(g, lambda n: list(n.ast.value.elts) if n.kind == "stmt" and isinstance(n.ast, ast.Return) and isinstance(n.ast.value, ast.Tuple) else [], init)
                 got = set()
@@ -115,14 +130,15 @@ def rule_a1(chk: Check) -> None:
                 chk.ob("A1", inst, ok, f"expected {want}, got {sorted(map(str, got))}", evals=max(1, len(res)))
     chk.sample({"rule": "A1", "rows": rows, "function": fi.key})
     # no rule matched -> admit is the documented behaviour; a rule lookup must exist
-    finder = [c for c in calls(fi.node) if "rule" in norm(c.func).lower()]
-    chk.require("A1", fi.key, "rule lookup call", len(finder), 1, "process_request does not look up the matching rule")
+    chk.require("A1", fi.key, "rule lookup call", 1 if lookup_call is not None else 0, 1, "process_request does not look up the matching rule")
 
 
 def rule_a2(chk: Check) -> None:
     chk.rule("A2", "the optional allow-list keeps its None/empty distinction from TOML to the rule: None -> None, [] -> empty set, ['fp'] -> {'fp'}")
+    from ..cfg import Builder, inline_local
+
     fi = chk.proj.func("server.config:ServerConfig.get_certificate_auth_config")
-    g = build_cfg(chk.proj, fi)
+    g = Builder(chk.proj, inline_local, 3).build(fi)
     ctor = [n for n in g.nodes if n.ast is not None and n.kind == "stmt" and any((dotted(c.func) or "").split(".")[-1] == "CertificateAuthPathRule" for c in calls(n.ast))]
     chk.require("A2", fi.key, "CertificateAuthPathRule construction", len(ctor), 1, "the TOML path rules are never turned into CertificateAuthPathRule objects")
     if not ctor:
@@ -177,8 +193,10 @@ def _key_reads(e: ast.AST) -> set[str]:
 
 def rule_a3(chk: Check) -> None:
     chk.rule("A3", "key fidelity: rule fields <- like-named dict keys; from_toml: certificate_auth.paths -> certificate_auth_paths; serve() -> start_server -> CertificateAuth")
+    from ..cfg import Builder, inline_local
+
     fi = chk.proj.func("server.config:ServerConfig.get_certificate_auth_config")
-    g = build_cfg(chk.proj, fi)
+    g = Builder(chk.proj, inline_local, 3).build(fi)
     defs = Defs(g)
     rule_cls = chk.proj.cls(f"{MW}:CertificateAuthPathRule")
     fields = list(rule_cls.fields)
@@ -269,7 +287,10 @@ def rule_a3(chk: Check) -> None:
 
 def rule_a4(chk: Check) -> None:
     chk.rule("A4", "the matcher iterates the rules in list order and returns the loop variable at the first prefix hit")
-    fi = chk.proj.func(f"{MW}:CertificateAuth._find_matching_rule")
+    _pr, _var, _call, fi = _rule_lookup(chk)
+    if fi is None:
+        chk.require("A4", f"{MW}:CertificateAuth.process_request", "rule matcher method", 0, 1, "the matched rule is not obtained from a matcher method of the middleware")
+        return
     g = build_cfg(chk.proj, fi)
     heads = [n for n in g.nodes if n.kind == "for"]
     chk.require("A4", fi.key, "rule loop", len(heads), 1, "the rule matcher has no loop over the rules")
@@ -453,10 +474,12 @@ def rule_a5(chk: Check) -> None:
 
 def rule_a7(chk: Check) -> None:
     chk.rule("A7", "client certificates are requested (PyOpenSSL backend selected) whenever a rule requires a certificate or has an allow-list")
+    from ..cfg import Builder, inline_local
+
     fi = chk.proj.func("server.server:start_server")
-    g = build_cfg(chk.proj, fi)
+    g = Builder(chk.proj, inline_local, 2).build(fi)
     defs = Defs(g)
-    tests = [n for n in g.nodes if n.kind == "test" and dotted(n.ast) == "use_pyopenssl"]
+    tests = [n for n in g.nodes if n.kind == "test" and not n.stack and dotted(n.ast) == "use_pyopenssl"]
     chk.require("A7", fi.key, "backend selection test", len(tests), 1, "start_server no longer selects the TLS backend on use_pyopenssl")
     if not tests:
         return
